@@ -167,6 +167,39 @@ func (ex *Exec) instr(b *ssa.BasicBlock, in ssa.Instruction) {
 		}
 		ex.vals[in] = v
 	case *ssa.Return:
+		// A block that only joins several paths and returns (phis, debug
+		// refs, the return) is treated as one return site per incoming edge:
+		// postconditions are then judged in each path's own memory instead of
+		// an ite-merged one (if/else versus early return must not matter).
+		if len(b.Preds) > 1 && ex == ex.top {
+			pure := true
+			for _, bi := range b.Instrs {
+				switch bi.(type) {
+				case *ssa.Phi, *ssa.DebugRef, *ssa.Return:
+				default:
+					pure = false
+				}
+			}
+			for _, p := range b.Preds {
+				if isBackEdge(p, b) || ex.memOut[p] == nil {
+					pure = false
+				}
+			}
+			if pure {
+				for _, p := range b.Preds {
+					var vs []Val
+					for _, x := range in.Results {
+						if phi, ok := x.(*ssa.Phi); ok && phi.Block() == b {
+							vs = append(vs, ex.phiEdgeVal(phi, b, p))
+						} else {
+							vs = append(vs, ex.val(x))
+						}
+					}
+					ex.rets = append(ex.rets, retInfo{reach: ex.edgeCond(p, b), vals: vs, mem: ex.memOut[p].clone()})
+				}
+				return
+			}
+		}
 		var vs []Val
 		for _, x := range in.Results {
 			vs = append(vs, ex.val(x))
